@@ -17,7 +17,7 @@ FUNCTIONS = ['SplineOptimizer copy constructor', 'copy assignment (incl. self-as
 OUTSIDE = ['more than 2 operations after the copy', 'heap errors without an effect on a scalar value', 'move operations']
 HARD_TIMEOUT = {'quick': 900, 'thorough': 3000}
 
-POST = ['MSf', 'MSi', 'MSa', 'DS', 'UM', 'EVs', 'NUL']
+POST = ['MSf', 'MSi', 'MSa', 'DS', 'UM', 'EVs', 'NUL', 'CF']
 FL_A = X.flags_from_int(0b01110110)
 FL_B = X.flags_from_int(0b10001001)
 
@@ -32,7 +32,7 @@ def bounds(tier):
     c = cfg(tier)
     return {'(order, DIM) with parameterised user-type maps': [list(x) for x in c['cases']], 'source configurations': '{default, user} time map x {default, user} spatial map x {no built-in workspace yet, built-in workspace exists}',
             'ways of copying': 'copy-construct; assign over a differently configured optimizer with a built-in workspace; assign over one without; self-assignment',
-            'later operations': 'all sequences up to length %d over {source: other flags, other initial state, assigned from another optimizer, destroyed, evaluated again; user map parameters changed; copy reset to its default maps}' % c['postlen'],
+            'later operations': 'all sequences up to length %d over {source: other flags, other initial state, assigned from another optimizer, destroyed, evaluated again; user map parameters changed; copy reset to its default maps; copy re-flagged}' % c['postlen'],
             'spline copies': [list(x) for x in c['splines']]}
 
 
@@ -177,6 +177,7 @@ def build_script(t, post):
         # later operations
         alive = True
         nul = False
+        cflags = False
         src = {'N': 2, 'fl': FL_A, 'sm': sm}
         for p in post:
             if p == 'MSf':
@@ -203,6 +204,10 @@ def build_script(t, post):
                 s.add('opt.settmap', cp, 'null')
                 s.add('opt.setsmap', cp, 'null')
                 nul = True
+            elif p == 'CF':
+                # the copy inherited a (possibly clean) layout cache: re-flagging the copy must re-derive its layout
+                X.set_flags(s, cp, FL_B)
+                cflags = True
         s.add('opt.spline', cp, 'BS1')
         # reference: a fresh optimizer configured the way the source was when it was copied
         defaults(False)
@@ -211,7 +216,9 @@ def build_script(t, post):
         if nul:
             s.add('opt.settmap F null')
             s.add('opt.setsmap F null')
-        nfin = X.ref_layout(o, 2, d, FL_A, X.dof_ident(d) if (nul or not sm) else X.dof_mode1(d))[2]
+        if cflags:
+            X.set_flags(s, 'F', FL_B)
+        nfin = X.ref_layout(o, 2, d, FL_B if cflags else FL_A, X.dof_ident(d) if (nul or not sm) else X.dof_mode1(d))[2]
         xfin = pa.xvars(nfin, prefix='f')
         for obj, pre in ((cp, 'R'), ('F', 'Q')):
             s.add('opt.dim', obj, pre + 'dim')
